@@ -34,6 +34,9 @@ pub enum CustomKind {
     Prod2Crate,
     /// out = x (.) x ; the derivative is obtained by a nested autodiff pass on a fresh graph
     NestedSq,
+    /// out = x0 (.) x1 through `Array::op(.., None)`: the forward closure uses the library's own
+    /// arithmetic and the user supplies no derivative (differentiation goes through the built-in graph)
+    CrateFwdNoBwd,
 }
 
 #[derive(Clone, Debug, Serialize, Deserialize, PartialEq)]
@@ -60,6 +63,8 @@ pub enum Op {
     Conv { sr: usize, sc: usize },
     /// user-defined operation through `Array::op`; `uid` labels the node in the invocation log
     Custom { kind: CustomKind, coef: Vec<f64>, script: Vec<Reent> },
+    /// the library's cost closures applied to (output, target) as ordinary differentiable operations
+    Cost(CostKind),
 }
 
 impl Op {
@@ -87,10 +92,14 @@ impl Op {
             Op::Custom { kind: CustomKind::Prod2, .. } => "custom_prod2",
             Op::Custom { kind: CustomKind::Prod2Crate, .. } => "custom_prod2_crate_forward",
             Op::Custom { kind: CustomKind::NestedSq, .. } => "custom_nestedsq",
+            Op::Custom { kind: CustomKind::CrateFwdNoBwd, .. } => "op_without_derivative_closure",
+            Op::Cost(CostKind::Mse) => "cost_mse",
+            Op::Cost(CostKind::CrossEntropy) => "cost_cross_entropy",
         }
     }
+    /// operations whose derivative is a logging user closure
     pub fn is_custom(&self) -> bool {
-        matches!(self, Op::Custom { .. })
+        matches!(self, Op::Custom { .. }) && !matches!(self, Op::Custom { kind: CustomKind::CrateFwdNoBwd, .. })
     }
     /// Operations whose result shares the operand's value buffer.
     pub fn aliases_operand(&self) -> bool {
